@@ -81,7 +81,7 @@ fn same_up_to_renaming(a: &T, b: &T, m: &mut HashMap<usize, usize>, back: &mut H
 }
 
 pub fn enum_mgu(seed: u64) -> Vec<String> {
-    let ts = vec![atom("a"), atom("b"), SInteger(1), SFloat(0.5), var(1, "$X"), var(2, "$Y"), var(3, "$Z"), Anonymous,
+    let ts = vec![atom("a"), atom("b"), SInteger(1), SFloat(0.5), SFloat(1.0), var(1, "$X"), var(2, "$Y"), var(3, "$Z"), Anonymous,
         SComplex(vec![atom("f"), var(1, "$X")]), SComplex(vec![atom("f"), atom("a")]), SComplex(vec![atom("f"), var(2, "$Y"), var(1, "$X")]),
         SComplex(vec![atom("f"), atom("a"), var(3, "$Z")]), SComplex(vec![atom("g"), SComplex(vec![atom("f"), var(1, "$X")]), var(2, "$Y")]),
         empty(), mk_list(&[atom("a")], None), mk_list(&[var(1, "$X"), atom("b")], None), mk_list(&[atom("a"), atom("b")], None),
